@@ -1,16 +1,10 @@
 import TdModel.Model.C17
+import TdModel.Prim.CRC32
 open TdModel TdModel.Codec
 
-/-- CRC-32 (IEEE, reflected 0xEDB88320), bit-at-a-time; driver-only stand-in for
-`hash/crc32.ChecksumIEEE` (validated against Go by the harness through the `crc` op). -/
-def crcByte (c : UInt32) (b : UInt8) : UInt32 := Id.run do
-  let mut x := c ^^^ b.toUInt32
-  for _ in [0:8] do
-    x := if x &&& 1 == 1 then (x >>> 1) ^^^ 0xEDB88320 else x >>> 1
-  return x
-
-def crc32 (bs : Bytes) : Nat :=
-  ((bs.foldl crcByte 0xFFFFFFFF) ^^^ 0xFFFFFFFF).toNat
+/-- `hash/crc32.ChecksumIEEE`: the executable primitive of `TdModel/Prim` (the harness also
+re-validates it against Go through the `crc` op on every run). -/
+def crc32 (bs : Bytes) : Nat := TdModel.Prim.crc32 bs
 
 def showRes (r : Res) : String :=
   let o := match r.out with
